@@ -823,13 +823,19 @@ def inline_unknown(trees_by_relpath, unknown, report):
     from .canon import canonicalise
 
     touched = set()
+    from .refnorm import load_inventory
+
+    inv = load_inventory() or {}
+    # a function the reference has under the same name in another module was moved (and edited): rules find it by
+    # name through the import, it is not a new helper
+    ref_names = {q for mod in inv.get("modules", {}).values() for q in mod if "." not in q}
     for _round in range(4):
         helpers = {}
         by_rel = {}
         for rel, tree in trees_by_relpath.items():
             for q, node, cls in functions_of(tree):
                 # unknown = not in the reference: a new function is nobody's API yet, whatever its spelling
-                if (rel, q) in unknown and not (node.name.startswith("__") and node.name.endswith("__")):
+                if (rel, q) in unknown and not (node.name.startswith("__") and node.name.endswith("__")) and not (cls is None and q in ref_names):
                     h = Helper(rel, q, node, cls)
                     calls, other = references(trees_by_relpath.values(), node.name, method=cls is not None)
                     if other:
